@@ -685,11 +685,20 @@ def _run(ctx, pool):
         perm = sorted(range(len(seq_execs)), key=lambda k: json.dumps([seq_execs[k]["convs"], seq_execs[k]["order"]]))
         model_bad = {j: model_bad[k] for j, k in enumerate(perm)}
         seq_execs = [seq_execs[k] for k in perm]
-        execs = grid + seq_execs
+        # sequential requests awaited from ONE coroutine (one asyncio context, as a chat loop does), some with
+        # per-request llm_params and some without: per-request context variables must not carry over
+        seqp = []
+        for tps in TEMP_PAIRS + [(0.9, None), (None, 0.2)]:
+            for texts in ([["b"], ["b"]], [["b", ":"], [":"]], [["b"], [":", "b"]]):
+                n1, n2 = len(texts[0]), len(texts[1])
+                for order in sorted(set(itertools.permutations([1] * n1 + [2] * n2))):
+                    seqp.append({"mode": "seq", "fam": "seqp", "order": list(order),
+                                 "convs": [{"hist": [], "texts": list(t), "temp": tp_} for t, tp_ in zip(texts, tps)]})
+        execs = grid + seq_execs + seqp
         for k, ex in enumerate(execs):
             ex["id"] = k
         nseq0 = len(grid)
-        ctx.log("universe: %d concurrent schedules, %d sequential (tuple, order) executions" % (len(grid), len(seq_execs)))
+        ctx.log("universe: %d concurrent schedules, %d sequential (tuple, order) executions, %d sequential with per-request parameters" % (len(grid), len(seq_execs), len(seqp)))
 
         # ---- oracle
         specs = {}
